@@ -57,7 +57,7 @@ class StatInterp(FSInterp):
         return super().iterate(it, node)
 
 
-def write_file(ctx: Ctx, log_times=False):
+def write_file(ctx: Ctx, log_times=False, extra_args=None):
     prog = ctx.prog
     values = {(s, g, k): value_of(i, s, g, k) for i, s in enumerate(SUBJECTS) for g in GROUPS for k in KEYS}
     if log_times:
@@ -65,7 +65,7 @@ def write_file(ctx: Ctx, log_times=False):
             for g in GROUPS:
                 values[("time", s, g)] = 12.5
     fs = FS()
-    agg, out, it = new_session(prog, fs, "/d/out.tsv", log_times=log_times, values=values)
+    agg, out, it = new_session(prog, fs, "/d/out.tsv", log_times=log_times, values=values, extra_args=extra_args)
     if agg is None:
         raise Undecided(f"aggregator constructor not evaluable: {out.kind} {out.exc}")
     its = [it]
@@ -127,6 +127,50 @@ def check_roundtrip(ctx: Ctx):
                 ok = isinstance(col, list) and len(col) == len(want) and all((a is None and b is None) or (a is not None and b is not None and a == b) for a, b in zip(col, want))
                 special = any((s, g, k) in SPECIAL for s in SUBJECTS)
                 ctx.decide("R18.4" if special else "R18.2", f, f.node, base + f":cell:{g}/{k}", "every subject's value comes back under its own (group, metric): finite as written, NaN/inf/-inf/None/uncomputable as missing", ok, {"got": repr(col), "want": repr(want)})
+
+
+def check_key_selections(ctx: Ctx):
+    """R18.7: a constructor option that takes a list of names (a selection of the result keys) is run with a
+    selection in an order other than the evaluator's.  Whatever the option does to the set of columns, every
+    cell the loader hands back under one of the session's (group, metric) keys must be the value written for it."""
+    from .aggrun import key_selection_options
+
+    prog = ctx.prog
+    init = agg_class(prog).lookup("__init__")
+    opts = key_selection_options(prog)
+    if not opts:
+        ctx.ok("R18.7", init, init.node, "key-selections:none", "the aggregator has no option that selects result keys", None, nontrivial=False)
+        return
+    for opt in opts:
+        for sel in ([KEYS[2], KEYS[0]], [KEYS[1], KEYS[2], KEYS[0]]):
+            construct = f"selection:{opt}={sel}"
+            try:
+                fs, values, wits, agg = write_file(ctx, False, extra_args={opt: list(sel)})
+                f, out, it = read_file(ctx, fs)
+            except Undecided as e:
+                ctx.ok("R18.7", init, init.node, construct, "the option does not accept a selection of result keys (session not evaluable): not run", {"why": str(e)[:200]}, nontrivial=False)
+                continue
+            if out.kind != "return" or out.decisions or not isinstance(out.value, Obj):
+                ctx.decide("R18.7", f, out.node, construct, "the loader reads the file the aggregator wrote with this option", False if (out.kind == "raise" and not out.decisions) else None, {"outcome": out.kind, "exc": out.exc})
+                continue
+            vd = out.value.attrs.get("_Panoptica_Statistic__value_dict")
+            if not isinstance(vd, dict):
+                ctx.undecided("R18.7", f, f.node, construct, "loader state not readable")
+                continue
+            wrong = {}
+            n = 0
+            for g in GROUPS:
+                cols = vd.get(g)
+                if not isinstance(cols, dict):
+                    continue
+                for k, col in cols.items():
+                    if k not in KEYS:
+                        continue
+                    n += 1
+                    want = [expected(values[(s, g, k)]) for s in SUBJECTS]
+                    if not (isinstance(col, list) and len(col) == len(want) and all((a is None and b is None) or (a is not None and b is not None and a == b) for a, b in zip(col, want))):
+                        wrong[f"{g}/{k}"] = {"got": repr(col)[:120], "written": repr(want)[:120]}
+            ctx.decide("R18.7", f, f.node, construct, f"every column the loader returns ({n}) holds the values written under its own (group, metric)", not wrong, wrong or None)
 
 
 def check_dialect(ctx: Ctx):
@@ -232,6 +276,7 @@ def _run_rule(ctx, name, fn):
 
 
 def check(ctx: Ctx):
+    _run_rule(ctx, "R18.7", check_key_selections)
     _run_rule(ctx, "check_roundtrip", check_roundtrip)
     _run_rule(ctx, "check_dialect", check_dialect)
     _run_rule(ctx, "check_vocabulary", check_vocabulary)
